@@ -42,7 +42,12 @@ func vhC05() {
 		v.Now = func() time.Time { return now }
 		rep = v
 	} else {
-		f, _ := NewFiniteReplayer(n+1, auto)
+		// exactly as large as needed to hold what is published while the client is away
+		c := n
+		if c < 2 {
+			c = 2
+		}
+		f, _ := NewFiniteReplayer(c, auto)
 		rep = f
 	}
 	topics := []string{DefaultTopic}
